@@ -328,7 +328,8 @@ macro_rules! vnote {
     }};
 }
 
-/// Declares a harness. `prop`, `mode`, `kind`, `tier` are read by the driver from the source text.
+/// Declares a harness. `prop`, `mode`, `kind`, `tier` are read by the driver from the source text
+/// (tier: quick | thorough | rot0..rot2 = in the quick tier when VERIF_SEED % 3 matches, always in thorough).
 #[macro_export]
 macro_rules! harness {
     (name=$name:ident, prop=$p:ident, mode=$m:ident, kind=$k:ident, tier=$t:ident, unwind=$u:expr, $body:block) => {
